@@ -629,6 +629,11 @@ def run_add_iterables(res):
                     rs = mk_sys(seq, subs, rx)
                     tot = rs + mk([rx[i] for i in add])
                     got = (ids_of(tot, rx), ids_of(rs, rx))
+                    # the in-place form with the same kind of operand extends the system itself
+                    rs2 = mk_sys(seq, subs, rx)
+                    rs2 += mk([rx[i] for i in add])
+                    if ids_of(rs2, rx) != tuple(seq) + tuple(add):
+                        got = ("+= gave %r" % (ids_of(rs2, rx),), got[1])
                 except Exception as e:
                     got = "EXC %s" % type(e).__name__
                 exp = (tuple(seq) + tuple(add), tuple(seq))
